@@ -33,6 +33,12 @@ func main() {
 		seed, _ := strconv.ParseUint(os.Args[3], 10, 64)
 		n, _ := strconv.Atoi(os.Args[4])
 		gen(os.Args[2], seed, n, os.Args[5])
+	case "stress": // stress <seed> <producers> <workers> <per-producer>
+		seed, _ := strconv.ParseUint(os.Args[2], 10, 64)
+		p, _ := strconv.Atoi(os.Args[3])
+		w, _ := strconv.Atoi(os.Args[4])
+		n, _ := strconv.Atoi(os.Args[5])
+		fmt.Println(stress(seed, p, w, n))
 	case "exec":
 		execOps(os.Args[2], os.Args[3], os.Args[4])
 	case "oracle":
